@@ -64,6 +64,7 @@ class GroupWorld(ClientWorld):
         self.stable_again_at = None
         self.nonkafka_raised = False
         self.heartbeats = 0
+        self.commit_rejected = False
 
     # ------------------------------------------------------------------ processor
     def processor(self, consumer, msgs):
@@ -130,13 +131,21 @@ class GroupWorld(ClientWorld):
                 self.stop_rec[3] = self.step
                 return None
             d.addBoth(fired)
+        elif op[0] == "append":
+            t, p = op[1].split("/")
+            log = self.cluster.logs[(t, int(p))]
+            for v in op[2]:
+                log.append_plain(b"late", v.encode("latin-1"), timestamp=7)
+            self.cluster.wake_fetches((t, int(p)))
         else:
             raise ValueError(op)
 
     def app_guard(self, op):
         g = op[-1] if isinstance(op[-1], dict) else None
-        if g and g.get("consumed"):
-            return self.caught_up()
+        if g and g.get("consumed") and not self.caught_up():
+            return False
+        if g and "time" in g and self.clock.seconds() < g["time"]:
+            return False
         return True
 
     def app_early_ok(self, op):
@@ -213,6 +222,16 @@ class GroupWorld(ClientWorld):
             if c16 and unanswered_commits:
                 self.viol("fencing", "join-written-while-commit-in-flight",
                           "a JoinGroup was written while an OffsetCommit of the previous generation is unanswered")
+            # the previous generation's consumers have committed their progress, unless a commit was rejected
+            if c16 and self.last_assigned and not self.commit_rejected and self.cfg.get("commit_every_n", 1):
+                for t, parts in self.last_assigned.items():
+                    for pn in parts:
+                        got = self.delivered.get((t, pn), [])
+                        stored = self.cluster.offsets.get((GROUP, t, pn), (None, ""))[0]
+                        if got and (stored is None or stored < got[-1]) and self.mode == "sync":
+                            self.viol("fencing", "rejoin-without-committing-progress",
+                                      "JoinGroup written while %s/%d was processed up to offset %d but the group's "
+                                      "committed offset is %r (no commit was rejected)" % (t, pn, got[-1], stored))
             self.state = "joining"
             self.assigned = None
         elif api == rk.SYNC_GROUP:
@@ -235,7 +254,10 @@ class GroupWorld(ClientWorld):
             for t in body["topics"]:
                 for part in t["partitions"]:
                     tp = (t["topic"], part["partition"])
-                    stopping_tail = self.stop_rec is not None and self.state == "out" and \
+                    # a fetch call issued before an eviction answer / during a graceful shutdown may still reach
+                    # the wire (it waited for a leader lookup); what must not happen is a fetch once the JoinGroup
+                    # of the next generation is out, or for a partition the member never owned
+                    stopping_tail = self.state == "out" and \
                         tp[1] in ((self.last_assigned or {}).get(tp[0]) or [])
                     if (self.state != "stable" or self.assigned is None or tp[1] not in (
                             self.assigned.get(tp[0]) or [])) and not stopping_tail:
@@ -306,12 +328,15 @@ class GroupWorld(ClientWorld):
                 self.sync_step = self.step
                 self.first_fetch_after_sync = {}
                 self.delivered = {}
+                self.commit_rejected = False
                 if self.stable_again_at is None and self.fault_steps:
                     self.stable_again_at = self.clock.seconds()
             elif api in GROUP_APIS + (rk.OFFSET_COMMIT,):
                 err = ans.get("error")
                 if api == rk.OFFSET_COMMIT:
                     err = ans["topics"][0]["partitions"][0]["error"]
+                if api == rk.OFFSET_COMMIT and err:
+                    self.commit_rejected = True
                 if err in (22, 25):
                     self.evicted = True
                     self.state = "out" if self.state == "stable" else self.state
@@ -333,6 +358,8 @@ class GroupWorld(ClientWorld):
                 self.rejoin_timers.append((now, delay, self.step, self.last_condition))
                 self.judge_backoff(delay)
         kind = label.split(":")[0]
+        if kind in ("refuse", "drop", "silent", "bclose") or "err=8" in label:
+            self.commit_rejected = True  # a lost or refused commit excuses the missing progress
         if kind in ("refuse", "drop", "silent", "cluster", "bclose") or "err=" in label:
             self.reacted = True
             self.fault_steps.append(self.step)
